@@ -27,7 +27,8 @@ RULE = ("marble strings rendered from generated token lists (ticks, single- and 
         "malformed stream of raw strings over the alphabet (unbalanced parentheses, numeric look-alikes); integer timespans/shifts "
         "(negative included for parse; a third of the cases pass timespan/shift/duetime as float, timedelta or absolute datetime in quarter "
         "seconds incl. fractional, multi-day and negative shifts), lookups keyed by strings/ints/floats, raise_stopped on/off; real parse vs the Lean scanner, "
-        "and from_marbles/hot recordings on TestScheduler vs the model's delivery. non-trivial = the string has a group, a "
+        "from_marbles/hot recordings on TestScheduler vs the model's delivery, and the testing context marbles_testing(): exp / start(cold) / "
+        "start(hot) with lookup and error arguments. non-trivial = the string has a group, a "
         "multi-character value or a space, and parses to at least two messages or to an error")
 ASSUMPTIONS = [
     "characters are ASCII (Python's int()/float() also accept Unicode digits and strip Unicode whitespace; not modelled)",
@@ -163,6 +164,18 @@ def _cases(rng, tier):
 
 
 def cases(rng, tier):
+    yield from _cases_units(rng, tier)
+    # the testing context: marbles_testing(timespan) -> start / cold / hot / exp with lookup and error arguments
+    for _ in range(fw.tier_scale(tier, 500, 5000)):
+        s = gen_string(rng)
+        lk = gen_lookup(rng, s)
+        if not lk and rng.random() < 0.5:
+            lk = [[enc(k), enc(v)] for k, v in [("a", 1), ("b", None), (1, "one"), (12, [1])][:rng.randrange(1, 5)]]
+        yield {"op": "marbles_ctx", "which": rng.choice(["cold", "cold", "hot"]), "s": s, "timespan": rng.choice([1, 10, 2, 3, 7, 100]),
+               "lookup": lk, "err": rng.choice([None, "boom"])}
+
+
+def _cases_units(rng, tier):
     """A third of the cases pass timespan / shift (duetime) as floats, timedeltas or — for hot — an absolute datetime, in
     quarter seconds (`unit` = 4: k/4 s is exact in binary, so times compare exactly), with fractional, multi-day and negative
     shifts.  All times of such a case (timespan, shift, sub, subs, disp) are integers in 1/unit seconds."""
@@ -256,6 +269,8 @@ def impl(case):
     from reactivex.testing import TestScheduler
 
     op = case["op"]
+    if op == "marbles_ctx":
+        return _impl_ctx(case)
     unit = case.get("unit", 1)
     tsf, shf = case.get("ts_form", "int"), case.get("shift_form", "int")
     timespan = _tv(case["timespan"], unit, tsf)
@@ -296,6 +311,29 @@ def impl(case):
     raise ValueError(op)
 
 
+def _impl_ctx(case):
+    import warnings
+
+    from reactivex.testing.marbles import marbles_testing
+
+    out = {}
+    with warnings.catch_warnings():
+        warnings.simplefilter("ignore")
+        with marbles_testing(timespan=case["timespan"]) as ctx:
+            start, cold, hot, exp = ctx
+            try:
+                ex = exp(case["s"], _lookup(case), _err(case))
+                out["exp"] = {"ok": _rec_json(ex)}
+            except ValueError as e:
+                out["exp"] = _verr(e)
+            try:
+                obs = (cold if case["which"] == "cold" else hot)(case["s"], _lookup(case), _err(case))
+                out["got"] = {"ok": _rec_json(start(obs))}
+            except ValueError as e:
+                out["got"] = _verr(e)
+    return out
+
+
 def _fix_val(v):
     if isinstance(v, dict) and "t" in v and len(v["t"]) == 2 and v["t"][0] == ".fl":
         return {"f": repr(float(v["t"][1]))}
@@ -307,6 +345,8 @@ def _fix_msgs(ms):
 
 
 def canon_model(case, out):
+    if case["op"] == "marbles_ctx":
+        return {k: ({"ok": _fix_msgs(v["ok"])} if "ok" in v else v) for k, v in out.items()}
     if "ok" not in out:
         return out
     if case["op"] == "marbles_hot":
@@ -381,6 +421,24 @@ def reference_parse(s, timespan, shift, lookup, err, raise_stopped):
 def oracle(case, out):
     op = case["op"]
     lk = _lookup(case)
+    if op == "marbles_ctx":
+        # the context's functions mean the same diagram: exp() is the documented reading shifted to the subscription time
+        # 200, and start(cold(...)) / start(hot(...)) deliver exactly those records inside the subscription window
+        ref = reference_parse(case["s"], case["timespan"], 200, lk, case.get("err"), False)
+        if ref is None:
+            return None
+        if fw.key(ref) != fw.key(out["exp"]):
+            return f"exp({case['s']!r}) = {out['exp']} but the documented syntax gives {ref}"
+        strict = reference_parse(case["s"], case["timespan"], 200, lk, case.get("err"), True)
+        if "ok" not in strict:
+            return None if fw.key(strict) == fw.key(out["got"]) else f"{case['which']}() should reject the diagram with {strict}, got {out['got']}"
+        if case["which"] == "cold":
+            want = [[t, n] for t, n in strict["ok"] if t < 1000]
+        else:
+            want = [[t, n] for t, n in strict["ok"] if 200 < t <= 1000]
+        if "ok" not in out["got"] or fw.key(want) != fw.key(out["got"]["ok"]):
+            return f"start({case['which']}({case['s']!r}, lookup)) recorded {out['got']}, exp() prescribes {want}"
+        return None
     if op == "marbles_parse":
         ref = reference_parse(case["s"], case["timespan"], case["shift"], lk, case.get("err"), case["raise_stopped"])
         if ref is not None and fw.key(ref) != fw.key(out):
@@ -413,6 +471,8 @@ def oracle(case, out):
 
 
 def nontrivial(case, out):
+    if case["op"] == "marbles_ctx":
+        return bool(case["lookup"]) and "ok" in out["got"] and len(out["got"]["ok"]) >= 2
     s = case["s"]
     rich = ("(" in s and ")" in s) or " " in s or any(len(w) > 1 for w in _words(s))
     if "ok" not in out:
@@ -428,6 +488,12 @@ def _words(s):
 
 def bucket(case, out):
     yield case["op"]
+    if case["op"] == "marbles_ctx":
+        yield "ctx:" + case["which"]
+        yield "ctx:got:" + ("ok" if "ok" in out["got"] else out["got"]["err"])
+        if case["lookup"] and "ok" in out["got"] and any(n[0] == "N" and any(fw.key(n[1]) == fw.key(v) for _, v in case["lookup"]) for _, n in out["got"]["ok"]):
+            yield "ctx:lookup-hit"
+        return
     if case.get("unit", 1) != 1:
         yield "quarter-seconds:timespan-as-" + case["ts_form"]
         if "shift_form" in case:
